@@ -22,8 +22,8 @@ Hypothesis ltb_trans : forall a b c, k_ltb K a b = true -> k_ltb K b c = true ->
 Hypothesis ltb_negtrans : forall a b c, k_ltb K a b = false -> k_ltb K b c = false -> k_ltb K a c = false.
 Hypothesis eqb_refl : forall a, k_eqb K a a = true.
 Hypothesis upd_below_max : forall va vb md sa sb sx,
-  k_ltb K va (k_max K) = true -> k_ltb K vb (k_max K) = true -> k_ltb K md (k_max K) = true ->
-  k_ltb K (k_upd K va vb md sa sb sx) (k_max K) = true.
+  k_ltb K va (k_inf K) = true -> k_ltb K vb (k_inf K) = true -> k_ltb K md (k_inf K) = true ->
+  k_ltb K (k_upd K va vb md sa sb sx) (k_inf K) = true.
 
 Variable crit : mtree -> mtree -> T -> Prop.
 Hypothesis crit_sym : forall A B v, crit A B v -> crit B A v.
@@ -60,7 +60,7 @@ Proof.
 Qed.
 
 Theorem generic_criterion s d m n s' d' m' M0 :
-  Forall (fun v => k_ltb K v (k_max K) = true) (square_all K m) ->
+  Forall (fun v => k_ltb K v (k_inf K) = true) (square_all K m) ->
   generic_with K p meth s d m n = Ok (s', d', m') ->
   prologue p (square_all K m) n = Ok M0 ->
   (forall x y v, x <> y -> x < m_obs M0 -> y < m_obs M0 -> wcell M0 x y = Some v -> crit (Leaf x) (Leaf y) v) ->
@@ -82,9 +82,9 @@ Proof.
                 ltac:(unfold wf_mat in Hwf; rewrite <- Hdata; exact Hwf) Hall) as (s1 & Hinit & HG0).
     cbn zeta in Hinit, HG0. rewrite <- EM in Hinit, HG0.
     destruct (mfold (init_row K p M0) (seq 0 (n0 - 1))
-                (h_prio (h_heapify_pre (k_max K) (st_queue (st_reset K s n0))), st_nearest (st_reset K s n0)))
+                (h_prio (h_heapify_pre (k_inf K) (st_queue (st_reset K s n0))), st_nearest (st_reset K s n0)))
       as [[dists nearest]| |]; cbn [bind] in Hinit, H; try discriminate.
-    destruct (h_heapify_post (k_ltb K) (h_heapify_pre (k_max K) (st_queue (st_reset K s n0))) dists) as [q1| |];
+    destruct (h_heapify_post (k_ltb K) (h_heapify_pre (k_inf K) (st_queue (st_reset K s n0))) dists) as [q1| |];
       cbn [bind] in Hinit, H; try discriminate.
     inversion Hinit as [Es1]. rewrite Es1 in H.
     assert (HW0 : LWInv crit s1 M0 (seq 0 n0) Leaf).
